@@ -104,6 +104,21 @@ def writeSrc (sel : Bool) (fill : Option Int) (casts : Bool) (o : NumOps α) (t 
 def writeGen (o : NumOps α) (t : Table α) : EmFile Stored :=
   writeSrc Gen.C01.writeSelectsCanonical Gen.C01.writeFill Gen.C01.writeCastsSingle o t
 
+/-- how a motive-list type string is compared (`motl_type.lower() == "emmotl"` when the source lowers it) -/
+def typeIs (lowers : Bool) (ty : String) : Bool := (if lowers then ty.toLower else ty) == "emmotl"
+
+/-- `Motl.write_out(path, motl_type)` restricted to what the property uses: with the type omitted (`none`, the
+signature default applies) or given, the EM branch hands the table to `EmMotl(self.df).write_out(path)` = `writeGen`;
+every other type is outside this property (`none`). Default, case folding and the branch body are regenerated facts. -/
+def motlWriteOut (ty : Option String) (o : NumOps α) (t : Table α) : Option (EmFile Stored) :=
+  if typeIs Gen.C01.motlWriteOutLowers (ty.getD Gen.C01.motlWriteOutDefault) && Gen.C01.motlWriteOutEmBranch
+  then some (writeGen o t) else none
+
+/-- `Motl.load(path, motl_type)` restricted likewise: the EM branch is `EmMotl(path)`, i.e. `read_in` -/
+def motlLoad (ty : Option String) (f : EmFile β) : Option (Table β) :=
+  if typeIs Gen.C01.motlLoadLowers (ty.getD Gen.C01.motlLoadDefault) && Gen.C01.motlLoadEmBranch
+  then readEm f else none
+
 /-- the cell conversion the property asks for, on stored numbers: missing → 0, everything else → single precision -/
 def specCell (o : NumOps α) (v : α) : Stored := conv o.isNaN (fun x => Stored.f32 (o.bits32 x)) (o.ofInt 0) v
 
